@@ -224,7 +224,10 @@ async fn handle_stream(
             };
         }
 
-        let tx = ts.get_mut(topic).unwrap();
+        // Talk to the topic through our own handle so that the map of all topics is not
+        // kept locked while a busy topic makes us wait
+        let mut tx = ts.get(topic).unwrap().clone();
+        drop(ts);
 
         match frame {
             Frame::RegisterPublisher(_) => {
